@@ -148,6 +148,9 @@ def main():
     if args and args[0] == "--round5":
         outroot, rename = "/tmp/wt-out5", {"A": "E", "B": "F"}
         args = args[1:]
+    if args and args[0] == "--round8":
+        outroot, rename = "/tmp/wt-out9", {"A": "K", "B": "L"}
+        args = args[1:]
     if args and args[0] == "--round7":
         outroot, rename = "/tmp/wt-out8", {"A": "I", "B": "J"}
         args = args[1:]
